@@ -27,8 +27,8 @@ def depsMatch (s : Sig) (tf : TraitFn) : Bool :=
   | .concrete _ => s.depIsConcrete
   | .noDeps => false
 
-theorem depsMatch_of_analyzeFn {opts : Opts} {s : Sig} {tg tg' : TraitGenerics} {tf : TraitFn}
-    (hn : opts.noDepsValue = false) (h : analyzeFn .selfRef opts s tg = .ok (tf, tg')) :
+theorem depsMatch_of_analyzeFn {kind : ReceiverKind} {opts : Opts} {s : Sig} {tg tg' : TraitGenerics} {tf : TraitFn}
+    (hn : opts.noDepsValue = false) (h : analyzeFn kind opts s tg = .ok (tf, tg')) :
     depsMatch s tf = true := by
   obtain ⟨deps, ins, tr, hd, _, rfl⟩ := analyzeFn_ok h
   obtain ⟨h1, h2, _⟩ := analyzeFnDeps_spec hd hn
